@@ -189,7 +189,8 @@ def _observe(sub, rec, case, known_sigs, sample_every):
         if f.sig in known_sigs:
             rec.known_hits[f.sig] += 1
         else:
-            rec.add_failure(f, case)
+            # an oracle that drives a whole campaign (e.g. a fuzzer) names the concrete failing input to be replayed
+            rec.add_failure(f, f["detail"].pop("replay_case", None) or case)
 
 
 def run_shard(task):
